@@ -3,6 +3,7 @@ package main
 import (
 	"math"
 	"math/rand"
+	"strings"
 )
 
 // Random Destination call sequences. The generator knows the *shape* of the API
@@ -117,10 +118,21 @@ func randColor(r *rand.Rand, o *progOpts) []int {
 		a := r.Intn(256)
 		return []int{0, r.Intn(a + 1), r.Intn(a + 1), r.Intn(a + 1), a}
 	case 5:
+		if r.Intn(4) == 0 {
+			return []int{1, r.Intn(256), 0, 0, 0} // the constructors take any uint8: the index is its low six bits
+		}
 		return []int{1, r.Intn(64), 0, 0, 0}
 	case 6:
+		if r.Intn(4) == 0 {
+			return []int{2, r.Intn(256), 0, 0, 0}
+		}
 		return []int{2, r.Intn(64), 0, 0, 0}
 	case 7:
+		if r.Intn(3) == 0 {
+			// a blend whose three bytes look like a direct colour in a shorter form (multiples of 0x11; 1-byte table values)
+			return [][]int{{3, r.Intn(16) * 0x11, r.Intn(16) * 0x11, r.Intn(16) * 0x11, 0}, {3, 0x40 * r.Intn(4), 0x40 * r.Intn(4), 0x40 * r.Intn(4), 0},
+				{3, 0xff, 0xff, 0xff, 0}, {3, 0, 0, 0, 0}}[r.Intn(4)]
+		}
 		return []int{3, r.Intn(256), r.Intn(256), r.Intn(256), 0}
 	default:
 		if o.gradients {
@@ -144,6 +156,12 @@ func randDraw(r *rand.Rand, o *progOpts, vi int) Call {
 	fsv := make([]float32, v.n)
 	for i := range fsv {
 		fsv[i] = randCoord(r, o)
+	}
+	if strings.HasPrefix(v.op, "Rel") && v.op != "RelArcTo" && r.Intn(12) == 0 {
+		// a relative segment of zero length (all operands zero): still an operation of the path
+		for i := range fsv {
+			fsv[i] = 0
+		}
 	}
 	c := mkCall(v.op, fsv...)
 	if v.op == "AbsArcTo" || v.op == "RelArcTo" {
